@@ -80,3 +80,14 @@ package structs
 //@ requires t != nil
 //@ ensures[spec] expired <==> (asOf != time.Time{} && t.ExpirationTime != nil && *t.ExpirationTime != time.Time{} && timeBefore(*t.ExpirationTime, asOf))
 //@ modifies nothing
+
+//@ file acl.go
+
+// The authorizer cache key is a digest over, for every policy in order, its ID and its ModifyIndex - so a policy
+// set is never served from an entry compiled from an older revision of one of its policies (C08: the decision
+// does not depend on cache contents). The claim is the loop invariant: exactly these items are fed to the hash.
+//@ func ACLPolicies.HashKey
+//@ props C08
+//@ results key
+//@ requires forall j int :: 0 <= j && j < len(policies) ==> policies[j] != nil
+//@ loop 1 invariant[hashed-id-and-modify-index] hashedLen(cacheKeyHash) == 2*range1_idx && forall j int :: 0 <= j && j < range1_idx ==> hashedIsBytes(cacheKeyHash, 2*j, []byte(policies[j].ID)) && hashedIsInt(cacheKeyHash, 2*j+1, policies[j].ModifyIndex)
